@@ -254,10 +254,6 @@ func checkCall(c CallCase) pbt.Verdict {
 		return pbt.Fail("expansion counter %d exceeds budget %d", lc, b)
 	}
 	quoted := strings.Contains(fmt.Sprint(c.Model.Methods()), "\"")
-	if c.Lookup && quoted {
-		// reverse edges are C04's subject; with quoted names their well-formedness is judged there
-		return pbt.Verdict{Skip: true}
-	}
 	edges, err := dot.ParseFlat(out, "digraph G {", "rankdir = LR;")
 	if err != nil {
 		return pbt.Fail("call graph is not well-formed DOT: %v\n%s", err, out)
@@ -449,7 +445,7 @@ func init() {
 	pbt.Describe("rapid-generated code models (1-5 classes over 7 package names, 0-4 methods each, 0-4 calls per method drawn from: declared methods incl. self, undeclared methods, external classes, empty receiver, constructor form; one third of the models acyclic by construction so that call trees can fit the budget; some names contain a double quote), a root (declared caller / declared leaf / absent), lookup on/off; for the api check additionally a DI map of 0-2 class replacements and 0-5 REST APIs. Oracle: reference call relation computed from the abstract model (DI applied), reachability, depth-first tree size. Non-trivial = a cycle or a node of out-degree >= 2 is reachable from the root; distinct = hash of (root or api list, sorted call relation, DI map).",
 		"names contain no backslash and no dot inside a simple name; URIs contain no double quote",
 		"the expansion budget is read from the code through the verif hook (VerifBudget) so that the check follows a deliberate change of the constant",
-		"lookup=true graphs with quoted names are skipped here (counted as skipped): reverse edges are judged by C04")
+		"in lookup mode only soundness of every edge (forward or reverse) and presence of the direct callees are asserted; the reverse part is C04's subject")
 	pbt.Register("call", 6000, 60000, genCall, checkCall)
 	pbt.Register("api", 4000, 40000, genApi, checkApi)
 }
